@@ -27,7 +27,10 @@ CFG = {
             "parameter sets x 12 limit sets, reordered; ~215 limit spellings on a first page and beside an issued "
             "token. live cases - a real server whose handler reports rqctx.page_limit(): collection sizes "
             "{0,1,5,99,100,101,250,9999,10000,10001,20000} x 15 limits x markers, every limit spelling, 25 bad "
-            "tokens, duplicates: status, effective limit, item count, first item, token presence. large-scope slice "
+            "tokens, duplicates: status, effective limit, item count, first item, token presence. 128-bit selectors: a fifth shape {big: u128, neg: i128} with 18 value pairs at and beyond "
+            "the 64-bit bounds (u64::MAX, u64::MAX+1, +2, 2^100, 2^127-1, 2^127, u128::MAX; i64::MAX+1, 2^64, i64::MIN, "
+            "i64::MIN-1, -2^100, i128::MIN, i128::MAX), issued through ResultsPage::new and presented back (tag "
+            "issue:128-bit). large-scope slice "
             "(deterministic, tags large:*): envelope sizes m-1, m, m+1 for m in {256, 384, 512, 1024, 4096, 16384, "
             "65536} bytes issued through ResultsPage::new and presented back hand-encoded; token lengths 255..257, "
             "1023..1025, 4095..4097, 16384, 65535..65537 characters (runs, and valid envelopes padded with JSON "
